@@ -21,20 +21,20 @@ PLANS = {
     'C07': {
         'quick': [
             leg('X', 'X', 40, opts={'ops': 10, 'p_model': 0.3}, weight=10,
-                max_workers=9, selftest=2, timeout=1700),
+                max_workers=9, selftest=2, timeout=2600, deadline=2700),
             leg('S', 'S', 30, opts={'ops': 6, 'p_model': 0.2}, weight=5,
-                max_workers=4, selftest=2, timeout=1700),
+                max_workers=4, selftest=2, timeout=2600, deadline=2700),
             leg('R', 'R', 10, opts={'events': 10}, weight=2, max_workers=3,
-                selftest=1, timeout=1700),
+                selftest=1, timeout=2600, deadline=2700),
         ],
         'thorough': [
             leg('X', 'X', 320, opts={'ops': 12, 'p_model': 0.35}, weight=9,
-                max_workers=8, selftest=4, timeout=3400, deadline=3500),
+                max_workers=8, selftest=4, timeout=7000, deadline=7200),
             leg('S', 'S', 320, opts={'ops': 8, 'p_model': 0.25, 'max_devices': 64,
                                      'max_devices_model': 16}, weight=7,
-                max_workers=5, selftest=4, timeout=3400, deadline=3500),
+                max_workers=5, selftest=4, timeout=7000, deadline=7200),
             leg('R', 'R', 60, opts={'events': 14}, weight=2, max_workers=3,
-                selftest=2, timeout=3400, deadline=3500),
+                selftest=2, timeout=7000, deadline=7200),
         ],
         'rule': (
             'Each evaluation is one seeded simulated run: a drawn (z,x,y) mesh '
@@ -76,15 +76,15 @@ PLANS = {
     'C14': {
         'quick': [
             leg('K', 'K', 96, opts={'cases': 10}, weight=10, max_workers=10,
-                selftest=3),
+                selftest=3, timeout=2600, deadline=2700),
             leg('R', 'R', 12, opts={'events': 6, 'kmax': 5, 'light': True}, weight=6,
-                max_workers=6, selftest=1, timeout=1700),
+                max_workers=6, selftest=1, timeout=2600, deadline=2700),
         ],
         'thorough': [
             leg('K', 'K', 1600, opts={'cases': 12}, weight=10, max_workers=10,
-                selftest=6, timeout=3400, deadline=3500),
+                selftest=6, timeout=7000, deadline=7200),
             leg('R', 'R', 120, opts={'events': 8, 'kmax': 6, 'light': True}, weight=6,
-                max_workers=6, selftest=2, timeout=3400, deadline=3500),
+                max_workers=6, selftest=2, timeout=7000, deadline=7200),
         ],
         'rule': (
             'Each evaluation is one seeded simulated run = a sequence of '
@@ -118,12 +118,12 @@ PLANS = {
     'C11': {
         'quick': [
             leg('R', 'R', 48, opts={'events': 12}, weight=16, max_workers=16,
-                selftest=2, timeout=1700),
+                selftest=2, timeout=2600, deadline=2700),
         ],
         'thorough': [
             leg('R', 'R', 640, opts={'events': 16, 'kmax': 10, 'max_steps': 48,
                                      'p_long': 0.1, 'long_steps': 160},
-                weight=16, max_workers=16, selftest=4, timeout=3400, deadline=3500),
+                weight=16, max_workers=16, selftest=4, timeout=7000, deadline=7200),
         ],
         'rule': (
             'Each evaluation is one seeded simulated model run: equation class '
@@ -163,15 +163,15 @@ PLANS = {
     'C19': {
         'quick': [
             leg('R', 'R', 44, opts={'events': 12}, weight=16, max_workers=13,
-                selftest=2, timeout=1700),
+                selftest=2, timeout=2600, deadline=2700),
             leg('R32', 'R', 9, opts={'events': 10, 'max_steps': 10}, x64=False,
-                max_workers=3, selftest=1, timeout=1700),
+                max_workers=3, selftest=1, timeout=2600, deadline=2700),
         ],
         'thorough': [
             leg('R', 'R', 560, opts={'events': 16, 'kmax': 10}, weight=16,
-                max_workers=13, selftest=4, timeout=3400, deadline=3500),
+                max_workers=13, selftest=4, timeout=7000, deadline=7200),
             leg('R32', 'R', 120, opts={'events': 12, 'max_steps': 12}, x64=False,
-                max_workers=3, selftest=2, timeout=3400, deadline=3500),
+                max_workers=3, selftest=2, timeout=7000, deadline=7200),
         ],
         'rule': (
             'Each evaluation is one seeded simulated model run with a durable / '
